@@ -13,7 +13,7 @@ KINDS = {
     "C07": {"safe", "shape", "defined", "pre", "lemma", "frame"},
     "C08": FUNCTIONAL | {"frame"},
     "C09": FUNCTIONAL,
-    "C10": {"post", "lemma", "refines"},
+    "C10": {"post", "lemma", "refines", "frame"},
     "C11": {"post", "lemma", "pre"},
     "C12": {"fresh", "frame", "lemma"},
     "C13": {"pre", "noglobal", "post", "lemma"},
